@@ -164,6 +164,9 @@ where
         A: ToSocketAddrs + Clone,
     {
         let socket = TcpListener::bind(addr.clone())?;
+        // The address that was actually bound, which differs from the one asked for when the port
+        //   is 0 or when the first of several addresses was not available
+        let local_addr = socket.local_addr();
         let subapps = Arc::new(self.subapps);
         let default_subapp = Arc::new(self.default_subapp);
         let error_handler = Arc::new(self.error_handler);
@@ -235,7 +238,10 @@ where
             // We wait for the shutdown signal, then wake up the main app thread with a new connection
             let _ = s.recv();
             shutdown.store(true, Ordering::SeqCst);
-            let _ = TcpStream::connect(unspecified_socket_to_loopback(addr));
+            let _ = match local_addr {
+                Ok(local_addr) => TcpStream::connect(unspecified_socket_to_loopback(local_addr)),
+                Err(_) => TcpStream::connect(unspecified_socket_to_loopback(addr)),
+            };
         };
 
         let _ = main_app_thread.join();
@@ -253,6 +259,9 @@ where
         use rustls::ServerConnection;
 
         let socket = TcpListener::bind(addr.clone())?;
+        // The address that was actually bound, which differs from the one asked for when the port
+        //   is 0 or when the first of several addresses was not available
+        let local_addr = socket.local_addr();
         let subapps = Arc::new(self.subapps);
         let default_subapp = Arc::new(self.default_subapp);
         let error_handler = Arc::new(self.error_handler);
@@ -344,7 +353,10 @@ where
             // We wait for the shutdown signal, then wake up the main app thread with a new connection
             let _ = s.recv();
             shutdown.store(true, Ordering::SeqCst);
-            let _ = TcpStream::connect(unspecified_socket_to_loopback(addr));
+            let _ = match local_addr {
+                Ok(local_addr) => TcpStream::connect(unspecified_socket_to_loopback(local_addr)),
+                Err(_) => TcpStream::connect(unspecified_socket_to_loopback(addr)),
+            };
         };
 
         let _ = main_app_thread.join();
